@@ -6,6 +6,6 @@ namespace Crusta.Gen
 def dispatchTable : List (String × String × String) := [("SE", "GR", "GR"), ("SE", "CO", "GR"), ("SE", "PR", "PR"), ("SE", "ST", "ST"), ("SE", "SST", "SST"), ("SE", "STG", "STG"), ("SE", "ID", "ID"), ("DC", "GR", "GR"), ("DC", "CO", "CO"), ("DC", "PR", "CO"), ("DC", "ST", "ST"), ("DC", "SST", "SST"), ("DC", "STG", "STG"), ("DC", "ID", "ID"), ("DS", "GR", "GR"), ("DS", "CO", "GR"), ("DS", "PR", "PR"), ("DS", "ST", "ST"), ("DS", "SST", "SST"), ("DS", "STG", "STG"), ("DS", "ID", "ID")]
 
 /-- `create_encoder`: (semantics of the arm, `[]` for `_`; guard on the literal problem string, default `--encoding`, `--encoding` value, encoder), in source order -/
-def encoderTable : List (List String × String × String × String × String) := [(["GR", "ST"], "", "", "", "none"), (["STG"], "", "exp", "aux_var", "auxCO"), (["STG"], "", "exp", "exp", "expCF"), (["STG"], "", "exp", "hybrid", "expCF"), (["PR"], "SE-PR", "aux_var", "aux_var", "auxADM"), (["PR"], "SE-PR", "aux_var", "exp", "expCO"), (["PR"], "SE-PR", "aux_var", "hybrid", "hyb"), ([], "", "aux_var", "aux_var", "auxCO"), ([], "", "aux_var", "exp", "expCO"), ([], "", "aux_var", "hybrid", "hyb")]
+def encoderTable : List (List String × String × String × String × String) := [(["GR", "ST"], "", "", "", "none"), (["STG"], "", "exp", "aux_var", "auxCF"), (["STG"], "", "exp", "exp", "expCF"), (["STG"], "", "exp", "hybrid", "expCF"), (["PR"], "SE-PR", "aux_var", "aux_var", "auxADM"), (["PR"], "SE-PR", "aux_var", "exp", "expCO"), (["PR"], "SE-PR", "aux_var", "hybrid", "hyb"), ([], "", "aux_var", "aux_var", "auxCO"), ([], "", "aux_var", "exp", "expCO"), ([], "", "aux_var", "hybrid", "hyb")]
 
 end Crusta.Gen
